@@ -145,6 +145,26 @@ impl MSel {
     }
 }
 
+/// equality of targets as the library sees it: member order is irrelevant in Multi/CompositeSelectors
+pub fn msel_same(a: &MSel, b: &MSel) -> bool {
+    match (a, b) {
+        (MSel::Multi(x), MSel::Multi(y)) | (MSel::Composite(x), MSel::Composite(y)) => {
+            if x.len() != y.len() {
+                return false;
+            }
+            let mut used = vec![false; y.len()];
+            for m in x.iter() {
+                match (0..y.len()).find(|j| !used[*j] && &y[*j] == m) {
+                    Some(j) => used[j] = true,
+                    None => return false,
+                }
+            }
+            true
+        }
+        _ => a == b,
+    }
+}
+
 #[derive(Clone, Debug, PartialEq)]
 pub struct MAnn {
     pub id: Option<String>,
@@ -1082,7 +1102,9 @@ impl Model {
         if let Some(id) = id {
             if let Some(uid) = self.find_annotation_by_id(id) {
                 let existing = &self.annotations[uid];
-                if existing.target == msel && existing.data == mdata {
+                // an identical item is not inserted twice (the existing handle is returned); the members of a
+                // Multi/CompositeSelector are kept in a canonical order, so their given order does not matter
+                if msel_same(&existing.target, &msel) && existing.data == mdata {
                     return Ok(Some(existing.handle));
                 }
                 return Err(());
